@@ -4,9 +4,23 @@ property is anchored in (used to test that the checks never raise an alarm on co
 import json, sys
 props = {json.loads(l)["id"]: json.loads(l) for l in open("/verif/properties.jsonl")}
 pid = sys.argv[1]
+rnd = int(sys.argv[2]) if len(sys.argv) > 2 else 1
 p = props[pid]
 wt = f"/tmp/seed/{pid}"
-out = f"{wt}-out3"
+out = f"{wt}-out3" if rnd == 1 else f"{wt}-outR{rnd}"
+avoid = ""
+if rnd > 1:
+    import glob, os
+    prev = []
+    for d in sorted(glob.glob(f"/verif/refactors/{pid}r*")):
+        try:
+            m = json.load(open(os.path.join(d, "meta.json")))
+            prev.append(f"  - {m.get('summary', '')}"[:500])
+        except Exception:
+            pass
+    if prev:
+        avoid = ("\nALREADY DONE BY OTHERS (do not repeat these or close variants; restructure different functions, or the same ones in a "
+                 "different style):\n" + "\n".join(prev) + "\n")
 mech = "; ".join(m["name"] for m in p["anchors"].get("mechanism", []))
 print(f"""You are working in a scratch git worktree of the Twisted repository (Python networking framework) at {wt} (package source under {wt}/src/twisted, tests in the `test/` sub-packages). Work ONLY inside {wt} and {out}. Never touch /repo and never read or write anything under /verif. No network is available. Do NOT use `git stash` (shared between worktrees); use `git diff > file; git checkout -- .; git apply file`. Start with `git -C {wt} checkout -- . && git -C {wt} clean -fdq`.
 
@@ -18,11 +32,12 @@ Statement: {p['statement']}
 Main source files: {', '.join(p['anchors']['files'])}
 Mechanisms that implement it: {mech}
 
-TASK. Produce FOUR independent, BEHAVIOUR-PRESERVING refactorings (R1..R4) of the functions/classes that implement this property — the kind of clean-up a maintainer would merge: each must leave the observable behaviour of every public API exactly as it is (same results, same exceptions, same ordering of effects and call-outs, same behaviour under re-entrancy and error paths), so the property above still holds and all existing tests still pass. Each refactoring should be substantial enough to change the SHAPE of the code the property depends on (not just whitespace or comments), and the four should differ in style. Ideas: rename locals / parameters of private helpers; extract a private helper method or inline one; turn nested if/else into guard clauses with early returns (or the reverse); invert a condition and swap the branches; rewrite `a > b` as `b < a` / `not a <= b`; replace a flag variable by `while ... else` or by an early return; introduce named temporaries for sub-expressions; replace `list.pop(0)` on a private list by `collections.deque.popleft()` (changing the constructor accordingly) where the list is not exposed; replace a loop by a comprehension or the reverse; reorder statements that are provably independent; replace chained `.replace()` calls by a loop over a constant tuple; use `try/finally` vs context manager; replace string formatting style. Do NOT change public names, signatures, class attributes that tests or subclasses rely on, log messages that tests assert on, or anything semantic.
+{avoid}
+TASK. Produce {"FOUR" if rnd == 1 else "TWO"} independent, BEHAVIOUR-PRESERVING refactorings ({"R1..R4" if rnd == 1 else "R5 and R6"}) of the functions/classes that implement this property — the kind of clean-up a maintainer would merge: each must leave the observable behaviour of every public API exactly as it is (same results, same exceptions, same ordering of effects and call-outs, same behaviour under re-entrancy and error paths), so the property above still holds and all existing tests still pass. Each refactoring should be substantial enough to change the SHAPE of the code the property depends on (not just whitespace or comments), and they should differ in style. Ideas: rename locals / parameters of private helpers; extract a private helper method or inline one; turn nested if/else into guard clauses with early returns (or the reverse); invert a condition and swap the branches; rewrite `a > b` as `b < a` / `not a <= b`; replace a flag variable by `while ... else` or by an early return; introduce named temporaries for sub-expressions; replace `list.pop(0)` on a private list by `collections.deque.popleft()` (changing the constructor accordingly) where the list is not exposed; replace a loop by a comprehension or the reverse; reorder statements that are provably independent; replace chained `.replace()` calls by a loop over a constant tuple; use `try/finally` vs context manager; replace string formatting style. Do NOT change public names, signatures, class attributes that tests or subclasses rely on, log messages that tests assert on, or anything semantic.
 
 For each refactoring you must convince yourself it is behaviour-preserving: run every test module that exercises the files you changed (list exactly what you ran; all must pass as on the unmodified tree), and write a small `equiv.py` that drives the old behaviour-relevant scenarios (normal paths, boundary values, error paths, re-entrant use where relevant) and prints a deterministic transcript; the transcript must be IDENTICAL on the unmodified worktree and with the refactoring applied (verify by running both and diffing).
 
-DELIVERABLES: {out}/R1/ … {out}/R4/, each containing
+DELIVERABLES: {out}/{"R1/ … " + out + "/R4/" if rnd == 1 else "R5/ and " + out + "/R6/"}, each containing
   patch.diff  (output of `git diff` with only that refactoring applied; must apply with `git apply` to a clean checkout)
   equiv.py    (the transcript script)
   meta.json   {{"property": "{pid}", "kind": "refactor", "summary": "<what was refactored and how>", "why_equivalent": "<argument>", "files": ["src/twisted/..."], "tests": ["src/twisted/.../test_x.py", ...], "ran": ["<commands and outcomes>"]}}
